@@ -64,6 +64,14 @@ Theorem C10_buffered_amounts_reachable : forall p t,
 Proof. exact buffered_amounts_reachable. Qed.
 Print Assumptions C10_buffered_amounts_reachable.
 
+(* the bound the caller computes from its own preferences is the bound for the preferences
+   the context keeps (blockSizeID 0 is replaced by the default in LZ4F_compressBegin) *)
+Theorem C10_bound_user_prefs : forall p n, valid_bsid0 (p_bsid p) = true -> 0 <= n ->
+  compressBound n (Some (begin_prefs (Some p))) = compressBound n (Some p) /\
+  compressBound_internal n (Some (begin_prefs (Some p))) 0 = compressBound_internal n (Some p) 0.
+Proof. exact cb_begin_prefs. Qed.
+Print Assumptions C10_bound_user_prefs.
+
 (* LZ4F_compressBound(srcSize, NULL) covers a frame begun with NULL preferences *)
 Theorem C10_bound_null_prefs : forall n, 0 <= n ->
   compressBound n (Some (begin_prefs None)) <= compressBound n None.
